@@ -41,7 +41,7 @@ def extra_configs(tier, add):
         cfg("g7a5uni-t5", "UniformRandomGenerator", 7, 5, 5, 7, cr=4.0, tr=0.0)
         cfg("g8a4walk-t30", "RandomWalkGenerator", 8, 4, 30, 33)
         cfg("g12a8walk-t40", "RandomWalkGenerator", 12, 8, 40, 44)
-        cfg("g6a6uni-t20", "UniformRandomGenerator", 6, 6, 20, 23, cr=0.5, tr=-0.125)
+        cfg("g6a6uni-t20", "UniformRandomGenerator", 6, 6, 20, 23, cr=0.5, tr=-0.25)   # reward code = 100*reward must be an integer
 
 
 # ---------------------------------------------------------------- encoders
